@@ -100,7 +100,7 @@ decreasing_by all_goals simp_wf <;> first | (apply Prod.Lex.left; omega) | (appl
 on failure, the bytes that had been read (the fallback payload) -/
 inductive FirstRead
   | ok (bs : Bytes) (rest : Bytes)
-  | fail (e : Err) (got : Bytes)
+  | fail (e : Err) (got : Bytes) (rest : List Bytes)
 
 /-- `readOnceOrFull`: `readOnceExpectFull` (one `Read`, must fill the buffer) or `io.ReadFull`. -/
 def firstRead (allowSeg : Bool) (n : Nat) (segs : List Bytes) : FirstRead :=
@@ -109,12 +109,12 @@ def firstRead (allowSeg : Bool) (n : Nat) (segs : List Bytes) : FirstRead :=
     let w := segs.flatten
     match readFull n w with
     | .ok (bs, r) => .ok bs r
-    | .error e => .fail e w
+    | .error e => .fail e w []
   else match segs with
-    | [] => .fail .eof []
+    | [] => .fail .eof [] []
     | s :: rest =>
       if n ≤ s.length then .ok (s.take n) (s.drop n ++ rest.flatten)
-      else .fail .firstRead s
+      else .fail .firstRead s rest
 
 /-! ### layer 1: chunks -/
 
@@ -520,7 +520,7 @@ def handle (C : Crypto) (cfg : ServerCfg) (now : Int) (segs : List Bytes) : Hand
   let urspLen := cfg.reqPrefix.length
   let firstLen := urspLen + saltLen + idLen + TCPRequestFixedLengthHeaderLength + tagSize
   match firstRead cfg.allowSeg firstLen segs with
-  | .fail e got => if got.length > 0 && cfg.fallback then .fallback got else .error e
+  | .fail e got _ => if got.length > 0 && cfg.fallback then .fallback got else .error e
   | .ok b rest =>
     let unauth (e : Err) : HandleRes := if cfg.fallback then .fallback b else .error e
     let salt := (b.drop urspLen).take saltLen
@@ -647,7 +647,7 @@ def initRead (C : Crypto) (c : CReader) (now : Int) : Except Err Nat × CReader 
   let urspLen := c.respPrefix.length
   let n := urspLen + saltLen + TCPRequestFixedLengthHeaderLength + saltLen + tagSize
   match firstRead c.allowSeg n c.segs with
-  | .fail e _ => (.error e, { c with segs := [] })
+  | .fail e _ rest => (.error e, { c with segs := rest })
   | .ok b rest =>
     if b.take urspLen ≠ c.respPrefix then (.error .prefixMismatch, { c with segs := [rest] }) else
     let salt := (b.drop urspLen).take saltLen
